@@ -112,6 +112,7 @@ var fns = []fnInfo{
 	{"op/properties.go", "", "Area", "op_Area_Polygon", false, "case:Polygon"},
 	{"op/properties.go", "", "Area", "op_Area_MultiPolygon", false, "case:MultiPolygon"},
 	{"op/properties.go", "", "Area", "op_Area_GeometryCollection", false, "case:GeometryCollection"},
+	{"op/properties.go", "", "Area", "op_Area_other", false, "case:other"},
 	{"area.go", "", "centroidAxisScale", "centroidAxisScale", false, "axisscale"},
 	{"area.go", "", "centroidScale", "centroidScale", false, ""},
 	{"area.go", "Polygon", "scaled", "polygon_scaled", false, ""},
@@ -133,6 +134,7 @@ var fns = []fnInfo{
 	{"op/properties.go", "", "Length", "op_Length_LineString", true, "case:LineString"},
 	{"op/properties.go", "", "Length", "op_Length_MultiLineString", true, "case:MultiLineString"},
 	{"op/properties.go", "", "Length", "op_Length_GeometryCollection", true, "case:GeometryCollection"},
+	{"op/properties.go", "", "Length", "op_Length_other", true, "case:other"},
 	{"linestring.go", "LineString", "Length", "lineString_Length", true, ""},
 	{"multilinestring.go", "MultiLineString", "Length", "multiLineString_Length", true, ""},
 	{"simplify.go", "", "pointSubtract", "pointSubtract", true, ""},
@@ -2066,6 +2068,9 @@ func translateCase(fi fnInfo, fd *ast.FuncDecl) string {
 		var clause *ast.CaseClause
 		for _, c := range sw.Body.List {
 			cc := c.(*ast.CaseClause)
+			if T == "other" && cc.List == nil {
+				clause = cc // `default:` — the geometries no case lists
+			}
 			for _, ty := range cc.List {
 				if typeName(ty) == T {
 					if clause != nil || len(cc.List) != 1 {
@@ -2074,6 +2079,9 @@ func translateCase(fi fnInfo, fd *ast.FuncDecl) string {
 					clause = cc
 				}
 			}
+		}
+		if clause == nil && T == "other" {
+			continue // no `default:` clause: a geometry that no case lists runs the statements around the switch only
 		}
 		if clause == nil {
 			xfail("no case %s", T)
@@ -2087,6 +2095,9 @@ func translateCase(fi fnInfo, fd *ast.FuncDecl) string {
 		xfail("no type switch")
 	}
 	t.vars[g] = T
+	if T == "other" {
+		t.vars[g] = "Geom" // a geometry of a type that no case lists
+	}
 	resultType[fi.lean] = "float64"
 	paramTypes[fi.lean] = []string{T}
 	hdr := ""
@@ -2101,7 +2112,12 @@ func translateCase(fi fnInfo, fd *ast.FuncDecl) string {
 	}
 	var body strings.Builder
 	t.block(stmts, "  ", "", &body)
-	return fmt.Sprintf("/-- %s: %s, case %s of its type switch%s -/\ndef %s %s(%s : %s) : Go.M %s := do\n%s", fi.file, fi.name, T, note, fi.lean, hdr, g, t.leanType(T), t.leanType("float64"), body.String())
+	gt := T
+	if T == "other" {
+		gt = "Geom"
+		note = " (a geometry of a type that no case lists: the `default:` clause when there is one, otherwise only the statements around the switch)"
+	}
+	return fmt.Sprintf("/-- %s: %s, case %s of its type switch%s -/\ndef %s %s(%s : %s) : Go.M %s := do\n%s", fi.file, fi.name, T, note, fi.lean, hdr, g, t.leanType(gt), t.leanType("float64"), body.String())
 }
 
 func translate(fi fnInfo, fd *ast.FuncDecl) (text string) {
